@@ -105,7 +105,12 @@ def to_scenario(sid, kind, crc, tour, rng):
     for x in expect:
         x.pop('blk', None)
         x.pop('delivered', None)
-    return dict(id=sid, kind=kind, crc=crc, csd=csd, timing=timing, seed=rng.randrange(1 << 30), misb=misb, ops=ops, retries=2, expect=expect[:len(ops)])
+    sc = dict(id=sid, kind=kind, crc=crc, csd=csd, timing=timing, seed=rng.randrange(1 << 30), misb=misb, ops=ops, retries=2, expect=expect[:len(ops)])
+    if a41 > 5:
+        # a card that never becomes ready: each call polls to the end of the driver's time-out (tens of thousands of command pairs,
+        # slow answers on top): the simulated card's own traffic allowance must not run out first
+        sc['budget'] = 12000000
+    return sc
 
 def scenarios(tier, seed):
     import concurrent.futures as cf
